@@ -186,7 +186,7 @@ def _load_check(modname):
 def run_unit(args):
     modname, subname, tier, seed, shard, nshards, n_override = args
     t0 = time.time()
-    res = {"sub": subname, "shard": shard, "evals": 0, "gen_evals": 0, "enum_evals": 0,
+    res = {"sub": subname, "shard": shard, "evals": 0, "gen_evals": 0, "enum_evals": 0, "nt_execs": 0,
            "nt_digests": [], "nt_enum": 0, "samples": [], "events": {}, "known": {},
            "skips": {}, "violation": None, "error": None, "wall": 0.0}
     try:
@@ -237,6 +237,7 @@ def run_unit(args):
                     st["error"] = traceback.format_exc() + "\ncase: " + blob[:4000]
                     raise _Abort()
                 if nt:
+                    res["nt_execs"] += 1
                     d = hashlib.sha1(blob.encode()).digest()[:8]
                     if d not in digests:
                         digests.add(d)
@@ -283,6 +284,7 @@ def run_unit(args):
                 if failed_msg is not None:
                     box["failed"] = (jsonio.enc({"steps": log}), failed_msg)
                 elif nontrivial:
+                    res["nt_execs"] += 1
                     d = hashlib.sha1(jsonio.dumps(log, sort_keys=True).encode()).digest()[:8]
                     if d not in digests:
                         digests.add(d)
@@ -429,7 +431,7 @@ def run_property(prop, tier, seed, only=None, n_override=None, procs=None):
 
     per_sub = {}
     for s in subs:
-        per_sub[s.name] = {"evaluations": 0, "generated": 0, "enumerated": 0, "nt": set(), "nt_enum": 0,
+        per_sub[s.name] = {"evaluations": 0, "generated": 0, "enumerated": 0, "nt": set(), "nt_enum": 0, "nt_execs": 0,
                            "samples": [], "events": Counter(), "known": Counter(), "skips": Counter(),
                            "wall_s": 0.0, "exhaustive_part": bool(s.enum), "rule": s.rule}
     for r in results:
@@ -438,6 +440,7 @@ def run_property(prop, tier, seed, only=None, n_override=None, procs=None):
         a["generated"] += r["gen_evals"]
         a["enumerated"] += r["enum_evals"]
         a["nt"].update(r["nt_digests"])
+        a["nt_execs"] += r.get("nt_execs", 0)
         a["nt_enum"] += r["nt_enum"]
         a["samples"].extend(r["samples"])
         a["events"].update(r["events"])
@@ -458,13 +461,15 @@ def run_property(prop, tier, seed, only=None, n_override=None, procs=None):
         if s.name in failed_subs or any(s.name in e for e in errors):
             continue
         if a["generated"] and not n_override:
-            frac = len(a["nt"]) / float(a["generated"])
+            # fraction of generated executions that were non-trivial (not the distinct count: on a small finite domain the
+            # number of DISTINCT cases saturates while the number of executions keeps growing)
+            frac = a["nt_execs"] / float(a["generated"])
             # Declared floors are design targets (typical fractions are 1.5-3x higher).  The run is failed only below
             # FLOOR_SLACK x target: the floor exists to catch a generator that stopped producing the interesting shape,
             # not seed-to-seed variation or the shift a changed library induces in the case distribution.
             if frac < s.floor * FLOOR_SLACK:
                 errors.append("sub-property %s: non-trivial fraction %.3f (%d/%d) below floor %.2f x %.2f -- generator problem"
-                              % (s.name, frac, len(a["nt"]), a["generated"], s.floor, FLOOR_SLACK))
+                              % (s.name, frac, a["nt_execs"], a["generated"], s.floor, FLOOR_SLACK))
         if ntc < s.min_nt:
             errors.append("sub-property %s: only %d non-trivial cases" % (s.name, ntc))
 
